@@ -76,6 +76,22 @@ func ownContext(ser string) []byte {
 	return b
 }
 
+// servicesURL serves the terms of the optional W3CCredential members that no embedded
+// context defines (displayMethod and the iden3 refresh service / display method types).
+const servicesURL = "https://schemas.example/c06/services.json-ld"
+
+func servicesContext() []byte {
+	b, _ := json.Marshal(map[string]any{"@context": map[string]any{
+		"@version":                  1.1,
+		"@protected":                true,
+		"displayMethod":             map[string]any{"@id": "urn:c06:svc#displayMethod", "@type": "@id"},
+		"Iden3BasicDisplayMethodV1": "urn:c06:svc#Iden3BasicDisplayMethodV1",
+		"C06OtherDisplayMethod":     "urn:c06:svc#C06OtherDisplayMethod",
+		"Iden3RefreshService2023":   "urn:c06:svc#Iden3RefreshService2023",
+	}})
+	return b
+}
+
 // schemaInfo: what the generator knows about a schema.
 type schemaInfo struct {
 	Label     string // own-merk | own-ser | kyc-v3
@@ -110,7 +126,8 @@ type credSpec struct {
 	Expiration    *int64 // unix seconds, nil = none
 	Status        int    // 0 none, 1 plain, 2 with statusIssuer
 	NoSubjectType bool
-	Variant       int // value variant
+	NoServices    bool // no refreshService / displayMethod members
+	Variant       int  // value variant
 }
 
 func i64(v int64) *int64 { return &v }
@@ -142,13 +159,17 @@ func buildDoc(sp credSpec) map[string]any {
 		}
 	}
 	doc := map[string]any{
-		"@context":          []any{ctxload.URLCredentialsV1, ctxload.URLIden3Proofs, sp.Schema.URL},
+		"@context":          []any{ctxload.URLCredentialsV1, ctxload.URLIden3Proofs, servicesURL, sp.Schema.URL},
 		"id":                fmt.Sprintf("urn:uuid:8a2a7b06-3c7f-4e0b-9d52-%012d", 100+k),
 		"type":              []any{"VerifiableCredential", sp.Schema.Type},
 		"issuer":            "did:iden3:polygon:mumbai:wyFiV4w71QgWPn6bYLsZoysFay66gKtVa9kfu6yMZ",
 		"issuanceDate":      "2023-01-02T03:04:05Z",
 		"credentialSubject": cs,
 		"credentialSchema":  map[string]any{"id": "https://schemas.example/c06/schema.json", "type": "JsonSchema2023"},
+	}
+	if !sp.NoServices {
+		doc["refreshService"] = map[string]any{"id": fmt.Sprintf("https://refresh.example/v1/%d", k), "type": "Iden3RefreshService2023"}
+		doc["displayMethod"] = map[string]any{"id": fmt.Sprintf("ipfs://QmC06Display%d", k), "type": "Iden3BasicDisplayMethodV1"}
 	}
 	if sp.Expiration != nil {
 		doc["expirationDate"] = time.Unix(*sp.Expiration, 0).UTC().Format(time.RFC3339)
@@ -243,6 +264,16 @@ func changedLeaf(path []string, v any) []any {
 				return []any{statusRev}
 			}
 			return []any{statusPlain}
+		case key == "type" && path[0] == "refreshService":
+			if x == "Iden3RefreshService2023" {
+				return []any{"ManualRefreshService2018"}
+			}
+			return []any{"Iden3RefreshService2023"}
+		case key == "type" && path[0] == "displayMethod":
+			if x == "Iden3BasicDisplayMethodV1" {
+				return []any{"C06OtherDisplayMethod"}
+			}
+			return []any{"Iden3BasicDisplayMethodV1"}
 		case key == "type" && path[0] == "credentialSchema":
 			if x == "JsonSchema2023" {
 				return []any{"JsonSchemaValidator2018"}
@@ -362,6 +393,20 @@ func docMods(doc map[string]any, sch *schemaInfo) []docMod {
 		add("remove:credentialSubject.id", "", func(d map[string]any) { delete(d["credentialSubject"].(map[string]any), "id") })
 	} else {
 		add("add:credentialSubject.id", "", func(d map[string]any) { d["credentialSubject"].(map[string]any)["id"] = otherDID })
+	}
+	for _, member := range []string{"refreshService", "displayMethod"} {
+		member := member
+		if _, ok := base[member]; ok {
+			add("remove:"+member, "", func(d map[string]any) { delete(d, member) })
+		} else {
+			add("add:"+member, "", func(d map[string]any) {
+				tp := "Iden3RefreshService2023"
+				if member == "displayMethod" {
+					tp = "Iden3BasicDisplayMethodV1"
+				}
+				d[member] = map[string]any{"id": "https://services.example/added", "type": tp}
+			})
+		}
 	}
 	if _, ok := base["credentialStatus"]; ok {
 		add("remove:credentialStatus", "", func(d map[string]any) { delete(d, "credentialStatus") })
